@@ -148,6 +148,10 @@ pub mod l1 {
     pub fn c_max() -> (r: f64) ensures r == f_maxval() { f64::MAX }
     #[verifier::external_body]
     pub fn c_min() -> (r: f64) ensures r == f_minval() { f64::MIN }
+    // smallest positive normal value: all that is used of it is that it is a positive number (never that it is small)
+    pub uninterp spec fn f_minpos() -> f64;
+    #[verifier::external_body]
+    pub fn c_min_positive() -> (r: f64) ensures r == f_minpos(), !f_is_nan(r), rv(r) > 0real { f64::MIN_POSITIVE }
     pub open spec fn finite(x: f64) -> bool { !f_is_nan(x) && rv(f_minval()) <= rv(x) <= rv(f_maxval()) }
     // f64::max / f64::min (IEEE maxNum / minNum): a NaN operand is ignored, otherwise the larger / smaller operand
     // (specs `f_fmax` / `f_fmin` of the methods are declared in fmeth.rs)
